@@ -48,7 +48,8 @@ METHOD_CATALOG = {}
 
 class Escape(object):
     def __init__(self, prog, resolver, boundaries=None, implicit=None, asserts=True,
-                 skip_funcs=(), method_catalog=None, catalog=None, max_depth=40, split_entry=False):
+                 skip_funcs=(), method_catalog=None, catalog=None, max_depth=40, split_entry=False, raise_helpers=()):
+        self.raise_helpers = set(raise_helpers)     # functions that only build and raise: their callers are the raise sites
         self.p = prog
         self.r = resolver
         self.boundaries = boundaries or {}      # func qname -> list of exception keys (summary)
@@ -539,6 +540,9 @@ class Escape(object):
                     if it.origin == 'boundary' and it.site_text == 'interface summary':
                         # key an interface summary by the call site that crosses the interface
                         it = Item(it.exc, 'boundary', it.chain, func.qname, norm(call), it.entry, call)
+                    elif t.func is not None and t.func.qname in self.raise_helpers and it.site_func == t.func.qname:
+                        # a raise helper: the statement that calls it is the raise site (one item per caller, not one for all)
+                        it = Item(it.exc, it.origin, it.chain, func.qname, norm(call), it.entry, call)
                     it2 = it.via(fr)
                     out.setdefault(it2.ident(), it2)
         return out
